@@ -395,4 +395,6 @@ FS_FORMS = {"fs_exists_in": _sf_fs_exists_in, "fs_content_in": _sf_fs_content_in
 
 def register(ix):
     ix.lib.update(LIB)
+    from . import lib_acc          # decimal, itertools.zip_longest (accumulators)
+    lib_acc.register(ix)
 
